@@ -342,7 +342,7 @@ def run(acc, tier):
         engine.pmap(acc, shard_pairs, extra=(4,))
         engine.pmap(acc, shard_generated, extra=(40, 400, 400))
     else:
-        engine.pmap(acc, shard_perms, extra=(7,))
+        engine.pmap(acc, shard_perms, extra=(8,))
         engine.pmap(acc, shard_pairs, extra=(5,))
-        engine.pmap(acc, shard_generated, extra=(300, 3000, 3000))
-        engine.fuzz(acc, "hyp:inflate", CHECKS, 3000, max_len=2048)
+        engine.pmap(acc, shard_generated, extra=(2000, 15000, 15000))
+        engine.fuzz(acc, "hyp:inflate", CHECKS, 20000, max_len=2048)
